@@ -51,13 +51,21 @@ def paramsVia (via : String) (m : Method Float) : Option (Params Float) :=
     | .maxAbs => some Params.maxAbs
   | _ => none
 
+/-- the dataset handed to `fit`: the records and (possibly) sample weights, one per row -/
+def fitDs (toks : List String) (fit : List (List Float)) : Option (DS (List (List Float)) Unit (List Nat)) := do
+  let w ← argNats toks "wts"
+  if w.isEmpty || w.length == fit.length then
+    some { records := fit, targets := (), weights := w, featureNames := [], targetNames := [] }
+  else none
+
 def handleLin (approx : Bool) (m : Method Float) (toks : List String) : Option String := do
   let via ← arg toks "via"
   layOk toks "layf"; layOk toks "layx"
   let pf ← argNat toks "pf"; let px ← argNat toks "px"
   let fit ← argF64s2 toks "fit"; let x ← argF64s2 toks "x"
   let q ← paramsVia via m
-  some (finish approx px x (fitParams epsF pf fit q))
+  let ds ← fitDs toks fit
+  some (finish approx px x (fitDataset epsF pf q ds))
 
 def handleStd (toks : List String) : Option String := do
   let wm ← argNat toks "wm"; let ws ← argNat toks "ws"
@@ -93,10 +101,31 @@ def wparamsVia (via : String) (m : WMethod) : Option WParams :=
       | .cholesky => WParams.pca.setMethod .cholesky)
   | _ => none
 
-/-- whitening: the matrix `W` found by the real SVD / Cholesky travels in the
-request (external, validated by its contract in the harness) as the result of the
-factorisation *of the requested method*; the model supplies the parameter object,
-the emptiness guard, the mean and the transform.  Each output entry is divided by
+/-- `F::cast(1e-8)`, the floor of the PCA / ZCA branches -/
+def floorF : Float := Float.ofBits 0x3E45798EE2308C3A
+
+/-- the external factorisations as the request delivers them: `s=`, `vt=` (the result of
+`sigma.svd(false, true)`, used by the PCA branch only) and `W=` together with the method whose branch
+produced it (ZCA, Cholesky: the whole branch is external).  A branch whose factor is not in the
+request fails, so the branch that runs is the one of the parameter object the calling form built. -/
+def factorOf (toks : List String) : Factor Float Unit :=
+  { svdVt := fun _ =>
+      match argF64s toks "s", argF64s2 toks "vt" with
+      | some s, some vt => .ok (s, vt)
+      | _, _ => .error ()
+    zca := fun _ =>
+      match arg toks "method", argF64s2 toks "W" with
+      | some "zca", some W => .ok W
+      | _, _ => .error ()
+    chol := fun _ =>
+      match arg toks "method", argF64s2 toks "W" with
+      | some "chol", some W => .ok W
+      | _, _ => .error () }
+
+/-- whitening, answered through `whitenFitDataset` (emptiness guard, mean, centring, the branch of the
+parameter object's method): PCA assembles its matrix in the model (`pcaAssemble`: floor `1e-8`,
+`sqrt(n-1) / s`) from the singular values and `Vᵀ` in the request and returns it bit for bit; for ZCA and
+Cholesky the matrix of the real factorisation travels in the request.  Each output entry is divided by
 its backward-error scale `Σ_i |x_i - mean_i| |W_ai|` (same operations as the harness). -/
 def handleWhiten (toks : List String) : Option String := do
   let m ← (arg toks "method").bind parseWMethod
@@ -104,9 +133,9 @@ def handleWhiten (toks : List String) : Option String := do
   layOk toks "layf"; layOk toks "layx"
   let pf ← argNat toks "pf"
   let fit ← argF64s2 toks "fit"; let x ← argF64s2 toks "x"
-  let W ← argF64s2 toks "W"
   let q ← wparamsVia via m
-  match whitenFitParams (ε := Unit) (fun m' _ => if m' = m then .ok W else .error ()) q pf fit with
+  let ds ← fitDs toks fit
+  match whitenFitDataset floorF (factorOf toks) q pf ds with
   | .error (.inl e) => some ("err " ++ errName e)
   | .error (.inr _) => none
   | .ok (mean, W) =>
@@ -115,7 +144,8 @@ def handleWhiten (toks : List String) : Option String := do
       List.zipWith (fun (v : Float) (w : List Float) =>
         let scale := (List.zipWith (fun ci wi => absS ci * absS wi) c w).foldl (· + ·) 0
         if scale > 0 then v / scale else v) (whitenRow mean W r) W
-    some s!"ok mean={showList showF64c mean} y={showList2 tilde y}"
+    let wtok := if m == .pca then " W=" ++ showList2 showF64c W else ""
+    some s!"ok mean={showList showF64c mean}{wtok} y={showList2 tilde y}"
 
 /-- dataset form: records are abstracted to their width; `pout` is the width of
 the transformed records, targets are `n × t` tags, weights a list of tags. -/
